@@ -94,8 +94,21 @@ pub fn frame_from_pixels<T: Pixel>(px: &[[u16; 3]], w: usize, h: usize, ssx: u8,
     Frame { planes: [y, u, v] }
 }
 
+/// like frame_from_pixels, but the luma plane is built with Plane::from_slice (tightly packed: stride == width, no
+/// padding, no alignment) while the chroma planes come from Plane::new with the given paddings
+pub fn frame_packed_luma<T: Pixel>(px: &[[u16; 3]], w: usize, h: usize, ssx: u8, ssy: u8, pads: [(usize, usize); 3]) -> Frame<T> {
+    let mut f = frame_from_pixels::<T>(px, w, h, ssx, ssy, pads);
+    let luma: Vec<T> = px.iter().map(|p| T::cast_from(p[0])).collect();
+    f.planes[0] = Plane::from_slice(&luma, w);
+    f
+}
+
 pub fn yuv444<T: Pixel>(px: &[[u16; 3]], w: usize, h: usize, cfg: &Cfg) -> Result<Yuv<T>, YuvError> {
     Yuv::new(frame_from_pixels::<T>(px, w, h, cfg.ssx, cfg.ssy, [(0, 0); 3]), cfg.yuv_config())
+}
+/// same, with per-plane paddings (so that the three planes get different strides / origins)
+pub fn yuv444_padded<T: Pixel>(px: &[[u16; 3]], w: usize, h: usize, cfg: &Cfg, pads: [(usize, usize); 3]) -> Result<Yuv<T>, YuvError> {
+    Yuv::new(frame_from_pixels::<T>(px, w, h, cfg.ssx, cfg.ssy, pads), cfg.yuv_config())
 }
 
 /// read back every visible sample of plane `p` row-major
